@@ -106,6 +106,7 @@ type strategyEngines struct {
 	multilineReverseSuffixSearcher *MultilineReverseSuffixSearcher // Issue #97
 	digitPrefilter                 *prefilter.DigitPrefilter
 	digitRunSkipSafe               bool
+	digitRunMask                   uint16
 	ahoCorasick                    *ahocorasick.Automaton
 	finalStrategy                  Strategy
 }
@@ -174,6 +175,7 @@ func buildStrategyEngines(
 	if result.finalStrategy == UseDigitPrefilter {
 		result.digitPrefilter = prefilter.NewDigitPrefilter()
 		result.digitRunSkipSafe = isDigitRunSkipSafe(re)
+		result.digitRunMask = digitRunMask(leadingDigitRunClass(re))
 	}
 
 	return result
@@ -630,6 +632,7 @@ func CompileRegexp(re *syntax.Regexp, config Config) (*Engine, error) {
 		multilineReverseSuffixSearcher: engines.multilineReverseSuffixSearcher,
 		digitPrefilter:                 engines.digitPrefilter,
 		digitRunSkipSafe:               engines.digitRunSkipSafe,
+		digitRunMask:                   engines.digitRunMask,
 		ahoCorasick:                    engines.ahoCorasick,
 		anchoredLiteralInfo:            anchoredLiteralInfo,
 		prefilter:                      pf,
